@@ -50,7 +50,11 @@ def regenerate():
             name = getattr(g, 'FILENAME', None) or FILENAMES.get(g.__module__)
             if name is None:
                 raise
-            text = ('/- extraction failed: ' + str(e).replace('-/', '- /')[:300] + ' -/\n')
+            # (a stub still DEFINES the symbols modules of the driver read, with values no obligation accepts: the
+            #  driver goes on building, only the obligations of the property the table belongs to stop compiling)
+            import importlib
+            stub = getattr(importlib.import_module(g.__module__), 'STUB', '')
+            text = ('/- extraction failed: ' + str(e).replace('-/', '- /')[:300] + ' -/\n' + stub)
         if _write_if_changed(os.path.join(GEN_DIR, name), text):
             changed.append(name)
     return changed
